@@ -535,3 +535,89 @@ func valueReaches(src ssa.Value, dst ssa.Value) bool {
 	}
 	return walk(dst)
 }
+
+func init() {
+	register(&Rule{ID: "C16.mode", Floor: 2,
+		Text: "every successful return of CopyFileHash is dominated by the success branch of dstFs.Chmod(dstPath, m) where m is Mode() of a Stat of the source (creation alone cannot give the permission bits: it is filtered by the destination's umask and ignored for an existing file)",
+		Run:  c16Mode})
+}
+
+func c16Mode(rc *RuleCtx) {
+	f := rc.C.fn("avfs", "CopyFileHash")
+	if f == nil {
+		rc.anchor("avfs.CopyFileHash")
+		return
+	}
+	if len(f.Params) < 4 {
+		rc.anchor("parameters of avfs.CopyFileHash")
+		return
+	}
+	dstFs, srcFs, dstPath := f.Params[0], f.Params[1], f.Params[2]
+	var chmodErr ssa.Value
+	why := "no call dstFs.Chmod(dstPath, mode-of-source) found"
+	eachCall(f, func(c ssa.CallInstruction) {
+		fn := calleeFunc(c)
+		if fn == nil || fn.Name() != "Chmod" || !c.Common().IsInvoke() || c.Common().Value != ssa.Value(dstFs) {
+			return
+		}
+		args := callArgs(c)
+		if len(args) != 2 || strip(args[0]) != ssa.Value(dstPath) {
+			why = "Chmod is not applied to the destination path parameter"
+			return
+		}
+		mc, _ := resultOfCall(resolve1(args[1]))
+		if mc == nil || calleeFunc(mc) == nil || calleeFunc(mc).Name() != "Mode" {
+			why = "the mode given to Chmod is not the Mode() of a FileInfo"
+			return
+		}
+		sc, idx := resultOfCall(resolve1(callRecv(mc)))
+		if sc == nil || idx != 0 || calleeFunc(sc) == nil || calleeFunc(sc).Name() != "Stat" {
+			why = "the FileInfo does not come from a Stat call"
+			return
+		}
+		// Stat receiver: srcFs parameter, or a file opened from srcFs
+		r := resolve1(callRecv(sc))
+		fromSrc := r == ssa.Value(srcFs)
+		if oc, i := resultOfCall(r); oc != nil && i == 0 && resolve1(callRecv(oc)) == ssa.Value(srcFs) {
+			fromSrc = true
+		}
+		if !fromSrc {
+			why = "the Stat is not a Stat of the source"
+			return
+		}
+		if call, ok := c.(*ssa.Call); ok {
+			chmodErr = call
+		}
+	})
+	ei := errResultIndex(f.Signature)
+	n := 0
+	for _, r := range returnsOf(f) {
+		vals := resolve(r.Results[ei])
+		allNil := true
+		for _, v := range vals {
+			if !isNilConst(v) {
+				allNil = false
+			}
+		}
+		if !allNil {
+			continue
+		}
+		n++
+		cons := fmt.Sprintf("%s return-nil#%d mode-copied", funcName(f), n)
+		if chmodErr == nil {
+			rc.bad(cons, r.Pos(), why)
+			continue
+		}
+		ok := false
+		for _, fa := range factsAt(r.Block()) {
+			if x, isNil, k := nilTest(fa); k && isNil && resolve1(x) == chmodErr {
+				ok = true
+			}
+		}
+		if ok {
+			rc.good(cons, r.Pos(), "dominated by the success of dstFs.Chmod(dstPath, Stat(source).Mode())")
+		} else {
+			rc.bad(cons, r.Pos(), "a successful return is not dominated by the success of the Chmod that copies the permission bits")
+		}
+	}
+}
